@@ -269,6 +269,16 @@ theorem q_gateFire (s : State) (ch : Option Int) (ok : Bool) : Quiet (gateFire s
   · exact hg
   · exact (q_openCore _ ch ok).trans hg
 
+theorem q_retryOpen (s : State) (ch : Option Int) (ok : Bool) : Quiet (retryOpen s ch ok).1 s := by
+  unfold retryOpen
+  split
+  · exact Quiet.refl _
+  · split
+    · exact Quiet.refl _
+    · split
+      · exact Quiet.refl _
+      · exact q_openCore s ch ok
+
 -- ------------------------------------------------------------------ consequences of bookkeeping + agreement
 
 theorem occId_some (m : List Int) (ps : List Player) (seat : Int) (x : Nat) (h : occId m ps seat = some x) :
